@@ -4,7 +4,7 @@ Spec: spec/conc/NonceCache.tla (state machine of 2-3 threads at lock granularity
       spec/conc/NonceCacheTrace.tla (conformance of recorded traces + the clauses on recorded events).
 
 Pipeline
-  1. TLC model-checks NonceCache (Grain="lock", exhaustive, thread/nonce symmetry) for capacities 1..4 with the
+  1. TLC model-checks NonceCache (mode "lock", exhaustive, thread/nonce symmetry) for capacities 1..4 with the
      clause invariants; the fine-grained variant with the lock (reduction is justified) and without it (each
      clause must FAIL there: vacuity guard).
   2. Level A (spec -> code): TLC dumps the lock-grain state graph; its paths (every interleaving in thorough /
@@ -397,21 +397,23 @@ def run(ctx: Ctx) -> None:
         mcs.append(("mc-3thr-1op-caps1-4", _consts(3, 3, (1, 2, 3, 4), (1, 2), 2, 1, sym=True), False))
         mcs.append(("mc-fine+nolock", _consts(2, 2, (1, 2), (2,), 2, 1, modes=("fine", "nolock"), sym=True), True))
         # (nthreads, nnonces, caps, ttls, maxclock, maxops, mode)   mode: "all" | "cover"
-        dumps = [(2, 2, (1,), (2,), 2, 1, "all"), (2, 2, (1, 2), (1,), 2, 2, "cover"), (3, 2, (1,), (2,), 2, 1, "cover")]
-        n_random = 40
+        dumps = [(2, 2, (1, 2), (2,), 2, 1, "all"), (2, 2, (1, 2), (1,), 2, 2, "cover"), (3, 2, (1,), (2,), 2, 1, "cover")]
+        n_random = 60
     else:
         mcs.append(("mc-2thr-2ops-caps1-4-ttl1-3", _consts(2, 3, (1, 2, 3, 4), (1, 2, 3), 3, 2, sym=True), False))
         mcs.append(("mc-3thr-2ops-caps1-3", _consts(3, 3, (1, 2, 3), (2,), 3, 2, sym=True), False))
         mcs.append(("mc-fine+nolock-2thr", _consts(2, 3, (1, 2), (2,), 3, 2, modes=("fine", "nolock"), sym=True), True))
         mcs.append(("mc-fine-3thr", _consts(3, 2, (1, 2), (2,), 2, 1, modes=("fine",), sym=True), False))
         dumps = [(2, 2, (1, 2), (2,), 2, 1, "all"), (3, 1, (1,), (1,), 1, 1, "all"), (3, 1, (1,), (2,), 2, 1, "all"),
+                 (2, 1, (1,), (1,), 2, 2, "all"),
                  (2, 2, (1, 2, 3), (1, 2), 2, 2, "cover"), (3, 2, (1, 2), (2,), 2, 1, "cover"),
                  (2, 3, (1, 2, 3, 4), (2,), 2, 2, "random")]
         n_random = 400
 
     def mc_job(name, consts):
         cfg = render_cfg(constants=consts, invariants=MODEL_INVS, symmetry="Symmetry")
-        return lambda: run_tlc(wd, "NonceCache", cfg, workers=W, cfg_name=f"NC_{name}.cfg", timeout=2400)
+        return lambda: run_tlc(wd, "NonceCache", cfg, workers=W, cfg_name=f"NC_{name}.cfg", timeout=2400,
+                               coverage="3thr-2ops" not in name)
 
     def dump_job(k, d):
         nt, nn, caps, ttls, mc_, mo, _ = d
@@ -538,7 +540,11 @@ def run(ctx: Ctx) -> None:
             ctx.sample({"level": "B", "scenario": _scn_json(scn), "schedule": outs[-1]["schedule"],
                         "real_trace": outs[-1]["trace"]})
     ctx.extra["level_B"] = b_stats
+    # exhaustive: TLC explored every model completely, every path of the "all" graphs was replayed and every real
+    # schedule of the Level-B scenarios (under their preemption bound) was executed; the "cover"/"random" graphs
+    # are sampled (edge-class cover + random walks)
     ctx.exhaustive = complete_all and b_complete
+    ctx.extra["sampled_graphs"] = [f"{d[0]}thr-{d[1]}n-caps{list(d[2])}" for d in dumps if d[6] != "all"]
     T["level_B_dfs"] = round(time.time() - t2, 1)
 
     # ---------------- 4. TLC judges every recorded trace (identical traces are judged once)
